@@ -99,6 +99,15 @@ type exprT struct {
 var exprs = []string{
 	`m`, `m{l="v"}`, `m{l!="v"}`, `m{l=~"v|w"}`, `m{l="w"}`, `n`, `sum(m)`, `sum(m{l="v"}) by (l)`, `rate(m{l="w"}[5m])`,
 	`m{l="v"} / n`, `m or n`, `sum(m{l="v"}) / sum(n{l="v"})`, `m{l="z"}`, `absent(m)`,
+	// joins whose other operand has an always-returning fallback: only that operand is exempt
+	`sum(m) / on() (sum(n) or vector(1))`, `m * on() group_left() (sum(n) or vector(1))`, `sum(n) / on() (sum(m{l="w"}) or vector(1))`,
+}
+
+// documented exemption by query shape: a metric wrapped in `... or vector(N)` is not checked
+var fallbackExempt = map[string]string{
+	`sum(m) / on() (sum(n) or vector(1))`:               "n",
+	`m * on() group_left() (sum(n) or vector(1))`:       "n",
+	`sum(n) / on() (sum(m{l="w"}) or vector(1))`:        "m",
 }
 
 func body(c *explore.Chooser) *explore.Case {
@@ -222,7 +231,7 @@ func body(c *explore.Chooser) *explore.Case {
 		}
 		// (ii) the metric had no sample at all in the window, nothing provides or exempts it: a Bug must be reported
 		isProvided := provided && metric == "m"
-		isExempt := exempt && metric == "m"
+		isExempt := exempt && metric == "m" || fallbackExempt[exprs[ei]] == metric
 		inAbsent := strings.HasPrefix(exprs[ei], "absent(")
 		if !everInWindow && !isProvided && !isExempt && !inAbsent {
 			bug := false
@@ -248,7 +257,7 @@ func body(c *explore.Chooser) *explore.Case {
 func main() {
 	explore.Main(&explore.Config{
 		Property: "C16", Level: "exploration",
-		Rule: "14 rule expressions (selectors on metrics m,n with =, !=, =~ matchers and an absent label value, inside sum(), rate(), binary operations, `or`, absent()) x presence patterns over the 6h look-back window for m{l=v}, m{l=w} (quick: always/never/first-half/second-half; thorough adds last-40-minutes-missing, intermittent, only-before-the-window) and n{l=v} x uptime metric with/without gaps x with/without a recording rule producing m x with/without a disable comment; the database is served over real HTTP by a Prometheus-compatible API backed by the vendored PromQL engine to the real FailoverGroup and promql/series check (3 slices per range probe); oracle (i) a selector that currently returns series draws no promql/series problem, (ii) a metric with no sample in the window that nothing provides or exempts draws a Bug",
+		Rule: "17 rule expressions (selectors on metrics m,n with =, !=, =~ matchers and an absent label value, inside sum(), rate(), binary operations, `or`, absent()) x presence patterns over the 6h look-back window for m{l=v}, m{l=w} (quick: always/never/first-half/second-half; thorough adds last-40-minutes-missing, intermittent, only-before-the-window) and n{l=v} x uptime metric with/without gaps x with/without a recording rule producing m x with/without a disable comment; the database is served over real HTTP by a Prometheus-compatible API backed by the vendored PromQL engine to the real FailoverGroup and promql/series check (3 slices per range probe); oracle (i) a selector that currently returns series draws no promql/series problem, (ii) a metric with no sample in the window that nothing provides or exempts draws a Bug",
 		Assumptions: []string{
 			"patterns are hours wide and a case takes milliseconds, so wall-clock drift cannot flip a verdict; the window edge is given 10 minutes of slack",
 			"the engine-backed fake API (handler, JSON encoding, storage) is trusted",
